@@ -5,7 +5,7 @@ on generated recipe graphs biased to the cycle-prone shapes; structural oracles 
 independent reachability walk over arguments/tools/sandbox.  IR faithfulness: every job's dumpJobSpec() is decoded the way
 `bob _jexec` does (a85 -> lzma -> JSON -> PartialIR.fromData) and every built step is compared with the live Step.
 """
-import asyncio, base64, json, lzma, os, random
+import asyncio, base64, json, lzma, os, random, shutil
 from lib import common, projgen, bobapi
 from lib.common import result, violation
 
@@ -15,6 +15,7 @@ BATCH = 2
 CASE_TIMEOUT = 600
 MIN_NONTRIVIAL = 30
 REQUIRED_COUNTERS = ["graphs", "jobs", "packages_checked", "job_dependency_edges_checked", "ir_steps_compared", "multi_variant_recipes"]
+EXEC_COUNTERS = ["node_jobs_executed", "node_artifacts_compared", "node_copied_upstream_artifacts"]
 RULE = ("generated recipe graphs with multiPackages, several variants of one recipe (same recipe under different environments), tools and "
         "sandboxes whose providers depend on sibling variants, crosswise multiPackage dependencies (a-1 -> b-2, b-1 -> a-2), isolate regexes, "
         "several roots, sandbox on/off. distinct_nontrivial = distinct (job count, max variants per recipe, isolate?, sandbox?) shapes with >= 2 jobs.")
@@ -24,7 +25,9 @@ ASSUMPTIONS = ["Build-Ids on both sides are computed with the same harness stub 
 
 def plan(tier, seed):
     n = 60 if tier == "quick" else 2000
-    return [{"seed": common.subseed(seed, "c20", i)} for i in range(n)] + [{"seed": seed, "fold": True, "_first": True}]
+    nx = 4 if tier == "quick" else 120
+    return [{"seed": common.subseed(seed, "c20", i)} for i in range(n)] + [{"seed": seed, "fold": True, "_first": True}] + \
+           [{"seed": common.subseed(seed, "c20x", i), "exec": True, "_first": i < 2} for i in range(nx)]
 
 
 def cycle_prone_model(rnd):
@@ -81,7 +84,146 @@ def reach(step, out, seen_pkgs):
         reach(step.getSandbox().getStep(), out, seen_pkgs)
 
 
+def _tgz_audit_and_tree(path, dest):
+    """independent reader of a Jenkins artifact: audit record + extracted content/ tree"""
+    import gzip, tarfile
+    audit = None
+    with tarfile.open(path, "r:*") as tf:
+        for mem in tf:
+            if mem.name == "meta/audit.json.gz":
+                audit = json.loads(gzip.decompress(tf.extractfile(mem).read()))
+        tf.extractall(dest, filter="tar")
+    return audit, os.path.join(dest, "content")
+
+
+def run_exec(case):
+    """Build-node emulation: the exported job configurations are *executed* the way Jenkins would (upstream artifacts copied into the
+    job workspace, the shell builder's `#!bob _jexec ... run` script run by the real bob, published artifacts archived) and every
+    produced artifact is compared with a purely local release build of the same project (ids from the audit trail, content tree)."""
+    import gzip, xml.etree.ElementTree as ET
+    from lib import e2e, treecanon
+    rnd = random.Random(case["seed"])
+    counters = dict.fromkeys(REQUIRED_COUNTERS, 0)
+    counters.update({"node_jobs_executed": 0, "node_artifacts_compared": 0, "node_copied_upstream_artifacts": 0})
+    viol, sigs = [], set()
+    feats = rnd.sample(["classes", "multi", "pdeps", "weak", "fwd", "tools", "menv", "if", "roots2", "checkoutscript"], rnd.randrange(2, 6)) + ["src", "tools"]
+    m = projgen.gen_model(rnd, rnd.randrange(4, 8), feats)
+    isolate = rnd.choice([None, None, ".*[135]$", ".*"])
+    with common.scratch("c20x") as base:
+        P = os.path.join(base, "proj"); projgen.write_project(P, m)
+        L = os.path.join(base, "local", "p"); projgen.write_project(L, m)
+        roots = e2e.roots(m)
+        ctx = {"roots": roots, "isolate": isolate, "features": sorted(set(feats))}
+        rl = e2e.build(L, m, "build", extra=["--download", "no"])
+        if rl.returncode != 0:
+            return result("trivial", counters=counters, note="local release build failed: " + rl.tail(300))
+        dl, _ = e2e.dists(L, m, "build")
+        local = {}
+        for pkg, dist in dl.items():
+            ap = os.path.join(os.path.dirname(dist), "audit.json.gz")
+            if os.path.exists(ap):
+                a = json.loads(gzip.decompress(open(ap, "rb").read()))["artifact"]
+                local.setdefault(a["variant-id"], {"pkg": pkg, "dist": dist, "audit": a})
+        args = ["jenkins", "add", "local", "http://localhost:1/"] + [x for r in roots for x in ("-r", r)] + projgen.define_args(m)
+        if isolate:
+            args += ["-o", "jobs.isolate=" + isolate]
+        r = common.bob(args, cwd=P)
+        if r.returncode != 0:
+            return result("trivial", counters=counters, note="jenkins add refused: " + r.tail(300))
+        exp = os.path.join(base, "export"); os.makedirs(exp)
+        r = common.bob(["jenkins", "export", "local", exp], cwd=P)
+        if r.returncode != 0:
+            if "cyclic" in (r.stdout + r.stderr).lower():
+                return result("held", counters=counters, violations=[violation("job-graph-cyclic", dict(ctx, error=r.tail(300)))])
+            return result("trivial", counters=counters, note="jenkins export refused: " + r.tail(300))
+        jobs = {}
+        for f in sorted(os.listdir(exp)):
+            x = ET.parse(os.path.join(exp, f)).getroot()
+            cps = [c for c in x.iter("hudson.plugins.copyartifact.CopyArtifact")] + [c for c in x.iter("buildStep") if c.get("class", "").endswith("CopyArtifact")]
+            arts = x.find("publishers/hudson.tasks.ArtifactArchiver/artifacts").text or ""
+            jobs[f[:-4]] = {"copies": [(c.find("project").text, c.find("filter").text) for c in cps],
+                            "shells": [s_.find("command").text for s_ in x.iter("hudson.tasks.Shell")], "artifacts": [a for a in arts.split(",") if a]}
+        counters["graphs"] += 1; counters["jobs"] += len(jobs)
+        store = os.path.join(base, "jenkins-artifacts")
+        done = []
+        jenv = {"JENKINS_HOME": os.path.join(base, "jhome"), "BUILD_TAG": "verif", "NODE_NAME": "node1", "BUILD_URL": "http://localhost:1/job/x/1/"}
+        while len(done) < len(jobs):
+            ready = [n for n in sorted(jobs) if n not in done and all(p in done for p, _ in jobs[n]["copies"])]
+            if not ready:
+                viol.append(violation("job-graph-cyclic", dict(ctx, stuck=sorted(set(jobs) - set(done))[:6], executed=True)))
+                break
+            n = ready[rnd.randrange(len(ready))]
+            ws = os.path.join(base, "node", n); os.makedirs(ws)
+            ok = True
+            for p, f in jobs[n]["copies"]:
+                src = os.path.join(store, p, f)
+                if not os.path.exists(src):
+                    viol.append(violation("job-copies-artifact-its-upstream-job-does-not-publish", dict(ctx, job=n, upstream=p, file=f))); ok = False; break
+                shutil.copy(src, os.path.join(ws, f)); counters["node_copied_upstream_artifacts"] += 1
+            for i, sh in enumerate(jobs[n]["shells"] if ok else []):
+                first = sh.split("\n", 1)[0]
+                if not first.startswith("#!bob "):
+                    continue
+                spec = os.path.join(base, "spec-%d-%d" % (len(done), i)); open(spec, "w").write(sh)
+                r = common.bob(first[len("#!bob "):].split() + [spec], cwd=ws, timeout=900, env=jenv)
+                if r.timed_out:
+                    return result("inconclusive", counters=counters, note="job execution timed out")
+                if r.returncode != 0:
+                    viol.append(violation("job-execution-fails-on-build-node", dict(ctx, job=n, output=r.tail(500)))); ok = False; break
+            if not ok:
+                break
+            counters["node_jobs_executed"] += 1
+            os.makedirs(os.path.join(store, n))
+            for a in jobs[n]["artifacts"]:
+                if not os.path.exists(os.path.join(ws, a)):
+                    viol.append(violation("job-does-not-produce-the-artifact-it-publishes", dict(ctx, job=n, file=a))); ok = False; break
+                shutil.copy(os.path.join(ws, a), os.path.join(store, n, a))
+            if not ok:
+                break
+            done.append(n)
+        if not viol:
+            seen = {}
+            for n in done:
+                for a in sorted(os.listdir(os.path.join(store, n))):
+                    if not a.endswith(".tgz"):
+                        continue
+                    audit, tree = _tgz_audit_and_tree(os.path.join(store, n, a), os.path.join(base, "x", n, a))
+                    art = audit["artifact"]
+                    bidfile = open(os.path.join(store, n, a[:-4] + ".buildid"), "rb").read().hex()
+                    vid = art["variant-id"]
+                    if vid in seen and seen[vid] != n:
+                        viol.append(violation("package-built-by-several-jobs", dict(ctx, package=art["meta"]["package"], jobs=[seen[vid], n], executed=True)))
+                    seen[vid] = n
+                    lc = local.get(vid)
+                    if lc is None:
+                        continue            # variant not built locally (Jenkins builds every reachable package)
+                    counters["node_artifacts_compared"] += 1; counters["packages_checked"] += 1
+                    bad = {}
+                    if art["build-id"] != lc["audit"]["build-id"]:
+                        bad["build-id"] = [art["build-id"], lc["audit"]["build-id"]]
+                    if bidfile != art["build-id"]:
+                        bad["published .buildid file"] = [bidfile, art["build-id"]]
+                    if art["result-hash"] != lc["audit"]["result-hash"]:
+                        bad["result-hash"] = [art["result-hash"], lc["audit"]["result-hash"]]
+                    if treecanon.canon(tree) != treecanon.canon(lc["dist"]):
+                        bad["content"] = treecanon.diff(tree, lc["dist"], 4)
+                    for k in ("recipe", "step"):
+                        if art["meta"].get(k) != lc["audit"]["meta"].get(k):
+                            bad["meta." + k] = [art["meta"].get(k), lc["audit"]["meta"].get(k)]
+                    if bad:
+                        viol.append(violation("build-node-result-differs-from-originating-project", dict(ctx, job=n, package=lc["pkg"], fields=sorted(bad), detail={k: bad[k] for k in sorted(bad)[:3]})))
+            missing = sorted(lc["pkg"] for v, lc in local.items() if v not in seen)
+            if missing:
+                viol.append(violation("package-built-by-no-job", dict(ctx, packages=missing[:5], executed=True)))
+            if len(jobs) >= 2 and counters["node_artifacts_compared"]:
+                sigs.add("exec|jobs%d|iso=%s|%s" % (min(len(jobs), 8), bool(isolate), ",".join(sorted(set(feats) & {"multi", "pdeps", "fwd", "checkoutscript", "roots2"}))))
+    return result("held", sigs=sorted(sigs), counters=counters, violations=viol[:4],
+                  sample={"exec": True, "jobs": {n: sorted({p for p, _ in j["copies"]}) for n, j in list(jobs.items())[:8]}, "order": done[:8]})
+
+
 def run_case(case):
+    if case.get("exec"):
+        return run_exec(case)
     common.repo_path_setup()
     from bob.errors import BobError
     from bob.state import BobState, JenkinsConfig
